@@ -393,14 +393,26 @@ def cases(draw):
     return c
 
 
+def long_cases():
+    """A long outage: hundreds of failed attempts in one run, then service comes back."""
+    for ext in (False, True):
+        for n in (450, 700):
+            att = [{"kind": "refused"} for _ in range(n)] + [{"kind": "server-close", "after": 1.0, "hs_delay": 0.0}]
+            yield {"attempts": att, "interval": 0.5, "external": ext, "on_reconnect": True, "run_for": n * 0.5 + 20.0}
+
+
 def jobs(tier, seed):
     n, shards = (2000, 8) if tier == "quick" else (112000, 16)
-    out = [{"name": "sequences", "kind": "seq"}]
+    out = [{"name": "sequences", "kind": "seq"}, {"name": "long-outage", "kind": "long"}]
     out += [{"name": f"hyp-{i}", "kind": "hyp", "seed": seed * 1000 + i, "n": n // shards} for i in range(shards)]
     return out
 
 
 def run_job(job, coll):
+    if job["kind"] == "long":
+        for c in long_cases():
+            coll.check(c, run_case)
+        return
     if job["kind"] == "seq":
         for c in seq_cases():
             coll.check(c, run_case)
